@@ -286,6 +286,24 @@ pub fn program_opts(data: &[u8], rebind_builtins: bool) -> (Program, Vec<&'stati
                 main.extend(uses);
                 bound.push((b.clone(), j));
             }
+            2 if rd.chance(1, 2) => {
+                // an import that may fail inside try/finally, with another import in the finally
+                // block: the failure passes through the finally block and reaches the outer handler
+                labels.push("import_in_finally");
+                counter += 1;
+                let e = format!("ie{}", counter);
+                let k = rd.below(nmods);
+                let inner = Stmt::new(StmtKind::Try(
+                    vec![Stmt::new(StmtKind::Import(paths[j].clone(), alias.clone())), Stmt::print(s("import in try block done"))],
+                    None,
+                    Some(vec![Stmt::new(StmtKind::Import(paths[k].clone(), Some(format!("fin{}", counter)))), Stmt::print(s("finally block done"))]),
+                ));
+                main.push(Stmt::new(StmtKind::Try(
+                    vec![inner, Stmt::print(s("after try/finally"))],
+                    Some((e.clone(), vec![Stmt::print(Expr::callv("type", vec![v(&e)]))])),
+                    None,
+                )));
+            }
             _ => {
                 main.push(guarded_import(&paths[j], alias.as_deref(), &mut counter, uses));
             }
